@@ -647,6 +647,15 @@ func init() {
 							rep.Fail("C20.unique-map", msg, hist)
 							return
 						}
+						// the argument map stays the caller's: scribbling on it afterwards changes nothing
+						for k := range arg {
+							arg[k] = 77
+						}
+						arg[9] = 99
+						if msg := checkUnique(m.GetKeys(), m.GetValues(), nil, model, model, nil); msg != "" {
+							rep.Fail("C20.unique-map", "after the caller modified the map it had passed in: "+msg, hist)
+							return
+						}
 					}
 					if len(model) > 0 {
 						rep.Nontrivial++
